@@ -126,6 +126,15 @@ TraceThresholdBig ==
 
 (* history: the caller re-assigns the configuration attributes of a live object (as enum members  *)
 (* or as the plain strings the label type compares equal to)                                      *)
+(* history: a constant is added to every score in place                                       *)
+TraceShiftScores ==
+  /\ IsEvent("ShiftScores")
+  /\ LET e == Log[l]
+         o == [store[e.h] EXCEPT !.pos = [i \in DOMAIN @ |-> @[i] + e.d], !.neg = [i \in DOMAIN @ |-> @[i] + e.d]]
+     IN /\ store' = (e.h :> o) @@ store
+        /\ Report(e, Failing({<<"C02.raised", e.exc = "">>,
+                              <<"C02.state_after_in_place_shift", e.exc # "" \/ ObjOfRec(e.post) = o>>}))
+
 TraceSetConfig ==
   /\ IsEvent("SetConfig")
   /\ LET e == Log[l]
@@ -134,7 +143,7 @@ TraceSetConfig ==
         /\ Report(e, Failing({<<"C02.raised", e.exc = "">>,
                               <<"C02.state_after_assigning_configuration", e.exc # "" \/ ObjOfRec(e.post) = o>>}))
 
-Next == TraceNew \/ TraceThreshold \/ TraceThresholdEmpty \/ TraceThresholdBig \/ TraceSetConfig
+Next == TraceNew \/ TraceThreshold \/ TraceThresholdEmpty \/ TraceThresholdBig \/ TraceSetConfig \/ TraceShiftScores
 Spec == Init /\ [][Next]_vars
 AllConsumed == TLCGet("stats").diameter - 1 = Len(Log)
 =============================================================================
